@@ -456,6 +456,19 @@ func driveUntrusted(h *vh.H, strict, safe bool) {
 					}
 				}
 			}
+			// every byte of a short encoding one up and one down: every length prefix, discriminator and flag of the value is hit
+			// exactly, also the ones a random position rarely meets (the first of two redundant prefixes, the count of a one-entry
+			// dictionary, …)
+			if len(enc) <= 96 && (strict && k%2 == 1 || safe && k%8 == 1) {
+				for p := range enc {
+					for _, dlt := range []byte{1, 0xFF} {
+						x := append([]byte(nil), enc...)
+						x[p] += dlt
+						inputs = append(inputs, x)
+					}
+				}
+				h.Inc("encodings_perturbed_at_every_byte")
+			}
 			for ii, in := range inputs {
 				if safe {
 					h.Case("bytes", ci, "", map[string]any{"type": rt.name, "input": vh.Hex(in)})
